@@ -137,7 +137,6 @@ func VerifC09History() {
 		switch verifrt.Choice(4) {
 		case 0:
 			k, v := c09Key(), c09Val()
-			verifrt.Known("C09-nolru-unlink", !c.lru && len(m.ents) > 0)
 			got := ch.Set(k, v)
 			want := m.set(c, k, v)
 			verifrt.Assert(got == want, "Set result differs from 'replaced a live entry'")
@@ -149,7 +148,6 @@ func VerifC09History() {
 			verifrt.Assert(c09Eq(got, want), "Get returns a value other than the latest surviving Set of the key")
 		case 2:
 			k := c09Key()
-			verifrt.Known("C09-nolru-unlink", !c.lru && len(m.ents) > 0)
 			ch.Del(k)
 			if j := m.find(k); j >= 0 {
 				m.remove(j)
@@ -170,6 +168,65 @@ func VerifC09History() {
 		for i := 0; i < len(log) && i < len(m.deleted); i++ {
 			verifrt.Assert(c09Eq(log[i].key, m.deleted[i].key) && c09Eq(log[i].val, m.deleted[i].val), "OnDelete order or arguments differ from least-recently-used eviction")
 		}
+	}
+	if len(m.deleted) > 0 {
+		verifrt.Cover("evicted")
+	}
+	verifrt.Cover("done")
+}
+
+// VerifC09Order: eviction order on a full LRU cache: MaxCount (2..3, thorough
+// ..4) distinct keys are set, then 0..2 (thorough ..3) Gets of arbitrary keys
+// and one Del or replacing Set re-order the usage list, then 1..2 fresh keys
+// force evictions; every result, Stats and the OnDelete log against the model.
+func VerifC09Order() {
+	maxK, maxG := 2, 2
+	if verifrt.Thorough() {
+		maxK, maxG = 3, 3
+	}
+	k := 2 + verifrt.Choice(maxK)
+	c := c09Conf{maxCount: uint(k), lru: true}
+	var log []c09Ent
+	conf := Config{MaxCount: c.maxCount, EnableLRU: true}
+	conf.OnDelete = func(k, v []byte) { log = append(log, c09Ent{k, v}) }
+	ch := New(conf)
+	m := &c09Model{}
+	for i := 0; i < k; i++ {
+		key, val := []byte{byte(i)}, []byte{byte(0x10 + i)}
+		verifrt.Assert(ch.Set(key, val) == m.set(c, key, val), "Set result differs from 'replaced a live entry'")
+	}
+	for g := verifrt.Len(maxG); g > 0; g-- {
+		kb := verifrt.Byte()
+		verifrt.Assume(int(kb) < k)
+		key := []byte{kb}
+		switch verifrt.Choice(3) {
+		case 0:
+			got, want := ch.Get(key), m.get(c, key)
+			verifrt.Assert(c09Eq(got, want) && (got == nil) == (want == nil), "Get returns a value other than the latest surviving Set of the key")
+		case 1:
+			val := []byte{0x20 + kb}
+			verifrt.Assert(ch.Set(key, val) == m.set(c, key, val), "Set result differs from 'replaced a live entry'")
+		default:
+			ch.Del(key)
+			if j := m.find(key); j >= 0 {
+				m.remove(j)
+			}
+		}
+	}
+	for f := 1 + verifrt.Choice(2); f > 0; f-- {
+		key, val := []byte{byte(0x40 + f)}, []byte{byte(0x50 + f)}
+		verifrt.Assert(ch.Set(key, val) == m.set(c, key, val), "Set result differs from 'replaced a live entry'")
+		st := ch.Stats()
+		verifrt.Assert(st.Count == len(m.ents) && st.Size == int(m.size()), "Stats differ from the live entries of the model")
+	}
+	for i := 0; i < k; i++ {
+		key := []byte{byte(i)}
+		got, want := ch.Get(key), m.get(c, key)
+		verifrt.Assert((got == nil) == (want == nil), "an entry other than the least recently used one was evicted")
+	}
+	verifrt.Assert(len(log) == len(m.deleted), "OnDelete was not called exactly once per evicted entry")
+	for i := 0; i < len(log) && i < len(m.deleted); i++ {
+		verifrt.Assert(c09Eq(log[i].key, m.deleted[i].key) && c09Eq(log[i].val, m.deleted[i].val), "OnDelete order or arguments differ from least-recently-used eviction")
 	}
 	if len(m.deleted) > 0 {
 		verifrt.Cover("evicted")
